@@ -565,7 +565,7 @@ def replace_with_dict(string, str_func, replacements, count=-1):
 
 
 @specs.parameter('left', yaqltypes.String())
-@specs.parameter('right', int)
+@specs.parameter('right', yaqltypes.Integer())
 @specs.name('#operator_*')
 def string_by_int(left, right, engine):
     """:yaql:operator *
@@ -613,7 +613,7 @@ def in_(left, right):
     return left in right
 
 
-@specs.parameter('left', int)
+@specs.parameter('left', yaqltypes.Integer())
 @specs.parameter('right', yaqltypes.String())
 @specs.name('#operator_*')
 def int_by_string(left, right, engine):
